@@ -1,5 +1,26 @@
 # trxcon (C) side of the TRX interface: helper module for the C04 / C05 / C14 checks
-# (not a registered check itself).  See the docstrings of build / gen / correspond / oracle.
+# (not a registered check itself; `tools/trxcon_selftest.py` runs it standalone).
+#
+# Code under test: src/host/trxcon/src/trx_if.c (compiled UNCHANGED from vf.REPO against the shim
+# headers harness/c/shim_trxcon; harness harness/c/trxcon/*.c).  Lean: Model/TrxconIf.lean,
+# Lemmas/TrxconIf.lean, Props/Trxcon.lean (namespace OsmoVerif.Props.Trxcon), Driver/TrxconIf.lean
+# (verbs `tc.*`), Gen/Trxcon.lean (gen/trxcon.py).
+#
+# How a check uses it (props/C04.py, C05.py, C14.py):
+#     from props import trxcon_part
+#     LEAN_MODULES = [..., "OsmoVerif.Props.Trxcon"]          # or a Props/Cxx.lean that imports and re-exports it
+#     LEAN_MODEL_MODULES = [...] + trxcon_part.LEAN_MODEL_MODULES
+#     ASSUMPTIONS = [...] + trxcon_part.ASSUMPTIONS
+#     def gen(run):        ...; trxcon_part.gen(run)            # Gen/Trxcon.lean from the current tree
+#     def correspond(run, corr): ...; trxcon_part.correspond(run, corr, parts=("rxd", "txd"))
+#     def search(run, corr, deep): found += trxcon_part.oracle(run, corr, deep, parts=("rxd", "txd"))
+#     def replay(run, path):  for a witness dict w with w["kind"].startswith("trxcon-"):
+#                                 still, text = trxcon_part.replay(run, w)
+# parts: "rxd" = trx_data_rx_cb, "txd" = trx_if_handle_phyif_burst_req (C04, C14),
+#        "cmd" = trx_if_handle_phyif_cmd / trx_ctrl_cmd, "rsp" = trx_ctrl_read_cb (C05, C14).
+# trxcon_part.build(run) returns the ASan+UBSan harness executable (line protocol in the header of
+# harness/c/trxcon/trxcon_harness.c) for cross runs, e.g. real Python bytes -> `tc.rxd <hex>`,
+# `tc.txd ...` -> bytes for the real Python parser, real toolkit replies -> `tc.rsp <cmd hex> 1 <hex>`.
 import os, re
 from lib import vf, cbuild
 
@@ -455,6 +476,19 @@ def correspond(run, corr, parts=PARTS):
 
 LEAN_MODULES = ["OsmoVerif.Props.Trxcon"]
 LEAN_MODEL_MODULES = ["OsmoVerif.Model.TrxconIf", "OsmoVerif.Lemmas.TrxconIf"]
+ASSUMPTIONS = [
+    "trxcon side: theorems are about OsmoVerif.Model.TrxconIf, a hand model of trx_data_rx_cb, trx_if_handle_phyif_burst_req, "
+    "trx_ctrl_cmd/trx_ctrl_send/trx_if_cmd_*/trx_if_handle_phyif_cmd, trx_ctrl_read_cb/trx_if_measure_rsp_cb of trx_if.c (with the "
+    "fix for F6 applied) with C integer widths and buffer capacities; tied to the tree by differential execution of the unchanged "
+    "trx_if.c (clang ASan+UBSan, and MSan) on boundary-dense and malformed inputs; buffer sizes, errno values, chan_types[] and the "
+    "FSM transition masks regenerated from the compiled translation unit on every run",
+    "trxcon environment replaced by harness/c/shim_trxcon + harness/c/trxcon/shim_impl.c: talloc -> calloc, logging -> formatting sink, "
+    "osmo_fsm_inst_state_chg -> out_state_mask check + recorder, osmo_fsm_inst_term / timers -> recorder, sockets -> "
+    "socketpair(AF_UNIX, SOCK_DGRAM); gsm_arfcn2freq10 from the in-tree libosmocore, gsm_freq102arfcn / GSM_TDMA_* / burst lengths / "
+    "enum gsm_phys_chan_config transcribed from current libosmocore (the in-tree copy predates them)",
+    "modelled, not verified: glibc snprintf truncation, strncmp/strchr/strlen, sscanf %d / %u (strtol/strtoul saturation, then "
+    "truncation to 32 bit), read() of a datagram socket (excess octets discarded); memory safety of the binary is sanitizer evidence",
+]
 
 
 # ----------------------------------------------------------------------------
